@@ -108,7 +108,7 @@ def item_name(item: dict) -> str:
         return f"gen:{item['seed']}"
     if k == "inputs":
         return f"inputs:{item['dir']}"
-    return k
+    return k + (":" + item["plugin_opts"] if item.get("plugin_opts") else "")
 
 
 def build_item(item: dict, opts: str = "") -> Build:
@@ -121,13 +121,16 @@ def build_item(item: dict, opts: str = "") -> Build:
         b.full()
         handmade.install(b)
         return b
-    b = Build(item_protos(item), opts)
+    b = Build(item_protos(item), opts or item.get("plugin_opts", ""))
     b.full()
     return b
 
 
 def value_items(tier: str, seed: int, n_gen: int, with_inputs: bool = True) -> List[dict]:
-    items: List[dict] = [{"kind": "matrix"}, {"kind": "handmade"}]
+    # the matrix schema also as generated under the other typing / dataclass options (one sampled shard each):
+    # the runtime reads the classes' type hints, which look different there (X | None, list[...], pydantic)
+    items: List[dict] = [{"kind": "matrix"}, {"kind": "handmade"}, {"kind": "matrix", "plugin_opts": "typing.310"},
+                         {"kind": "matrix", "plugin_opts": "pydantic_dataclasses"}]
     for i in range(n_gen):
         items.append({"kind": "gen", "seed": seed * 100003 + i, "opts": {"services": False}})
     if with_inputs:
